@@ -69,3 +69,10 @@ int sizes_around(int *out, int max, const int *thr, int nthr, int lo, int hi) {
   for (i = 0; i < nthr; i++) for (d = -2; d <= 2; d++) { int v = thr[i] + d, dup = 0; if (v < lo || v > hi) continue; for (j = 0; j < c; j++) if (out[j] == v) dup = 1; if (!dup && c < max) out[c++] = v; }
   return c;
 }
+
+const char *opt_val(const shard_t *s, const char *key) {
+  static char buf[256]; char pat[64]; const char *p, *e;
+  snprintf(pat, sizeof pat, ",%s=", key); p = strstr(s->opts, pat);
+  if (!p) return NULL; p += strlen(pat); e = strchr(p, ','); if (!e) e = p + strlen(p);
+  snprintf(buf, sizeof buf, "%.*s", (int)(e - p), p); return buf;
+}
